@@ -62,10 +62,12 @@ func main() {
 			fmt.Fprintln(os.Stderr, "usage: verifh check <ID> quick|thorough")
 			os.Exit(2)
 		}
+		conc.ParentRaceSetup()
 		if _, err := litmus.Run(); err != nil {
 			fmt.Fprintln(os.Stderr, "SELF-CHECK FAILED:", err)
 			os.Exit(2)
 		}
+		conc.DiscardRaceLog()
 		rc := checks.Run(os.Args[2], os.Args[3])
 		dbh.Cleanup()
 		os.Exit(rc)
